@@ -94,7 +94,7 @@ def props_compile(pid):
     return theorems, printed, blocks, hashlib.sha256(text.encode()).hexdigest()
 
 def driver_build():
-    srcs = [os.path.join(EXTRACT, f) for f in ('Extract.v', 'driver.ml', 'driver_hs.ml')] + \
+    srcs = [os.path.join(EXTRACT, f) for f in ('Extract.v', 'driver.ml', 'driver_hs.ml', 'dutil.ml', 'build.sh')] + \
            glob.glob(os.path.join(COQ, '*.vo'))
     if os.path.exists(DRIVER) and all(os.path.getmtime(s) <= os.path.getmtime(DRIVER) for s in srcs):
         return
